@@ -11,7 +11,8 @@ TRUSTED = ["allocation accounting by link-time wrapping of malloc/calloc/realloc
            "sanitizer build (ASan, bounds, null): an invalid access is a crash of the per-case child process"]
 ASSUMPTIONS = ["histories as the property quantifies them: per entry reads in any piece sizes, or one check, or one extract "
                "(reads after it are harmless), every prefix = abandoning the archive at that point",
-               "the ledger (ReaderMem.v) does not model failing allocations: that half is decided on the C alone"]
+               "a single failing allocation request per run (index k), as the property states; progress callbacks that fire "
+               "before a failing request are not modelled (cm / xm are run as c / x in the injection part)"]
 
 
 import re
@@ -156,7 +157,33 @@ def run(ctx):
             t = l.split()
             for k in range(1, int(ca.group(1)) + 1):
                 inj.append(" ".join(t[:3] + [str(k)] + t[4:]))
+        # progress callbacks that fire before a failing request are not in the failing-allocation ledger: plain c / x
+        def plain_ops(l):
+            t = l.split()
+            t[5] = ",".join({"cm": "c", "xm": "x"}.get(o, o) for o in t[5].split(","))
+            return " ".join(t)
+        inj = [plain_ops(l) for l in inj]
         iout = common.run_lines_parallel([drvm], inj)
+        # the ledger with the k-th request failing (ReaderMemFail.v) must predict every result, lb= and rq= after every
+        # call -- also after the failing one -- and the balance at exit
+        fout = common.run_lines_parallel([ctx.model], ["rdrmemfail" + l[3:] for l in inj])
+        def norm(o, rx):
+            o = rx.sub("", o.split("|")[0].rstrip())
+            return T.TAIL_RE.sub("", o).rstrip()
+        n_fail_cmp = 0
+        for l, c, m in zip(inj, iout, fout):
+            ca, ma = T.ALLOC_RE.search(c), T.FINAL_RE.search(m)
+            if "CHILD-FAILED" in c or ca is None:
+                continue                                  # reported below as a violation
+            if m == "HANG" or m.startswith("SKIPPED") or m.startswith("CRASH"):
+                dist["model-too-slow-not-compared"] += 1
+                continue
+            n_fail_cmp += 1
+            if "FAULT" in m or ma is None or not (norm(c, T.ALLOC_RE) == norm(m, T.FINAL_RE) and ca.group(2) == ma.group(1) and ca.group(3) == ma.group(2)):
+                i_, cc, mm = T.first_diff(norm(c, T.ALLOC_RE), norm(m, T.FINAL_RE)) if ma else (0, c[-300:], m[-300:])
+                mism.append({"case": l[:6000], "c": cc[:600], "model": mm[:600],
+                             "what": "with allocation request %s failing the ledger and the C differ" % l.split()[3]})
+        dist["failinj:ledger-compared"] = n_fail_cmp
         silent = []
         reached = 0
         for l, c in zip(inj, iout):
@@ -203,7 +230,7 @@ def run(ctx):
                        "for each: allocator balance after lha_reader_free + stream free must be 0 blocks / 0 FILE handles, and the "
                        "ledger's predicted live-block count must equal the allocator's after EVERY call.  Then for %d of the cases "
                        "every allocation request k = 1..n of the fault-free run is made to fail in turn (%d runs, %d reached the "
-                       "failing request): no crash, balance 0.  non-trivial = case with more than 8 allocation requests"
+                       "failing request): no crash, balance 0, the affected call returns a failure value, and the failing-allocation ledger (ReaderMemFail.v) predicts every result, live-block count and request count after every call incl. those after the failure.  non-trivial = case with more than 8 allocation requests"
                        % (3 if ctx.quick else 4, n_ex, len(cands), len(inj), reached),
                "distribution": dict(dist), "samples": [lines[0][:300], lines[-1][:300]]}
         return {"violations": viol[:10], "mismatches": mism[:10], "coverage": cov,
